@@ -57,3 +57,6 @@ Fixpoint failing_from {C} (chk : C -> N) (i : N) (cs : list C) : list (N * N) :=
 Definition failing {C} (chk : C -> N) (cs : list C) : list (N * N) := failing_from chk 0 cs.
 
 Definition bit (b : bool) (k : N) : N := if b then 0 else k.   (* k when the check b fails *)
+
+(* check codes are bit sets: combine with lor, never with + *)
+Infix "|+|" := N.lor (at level 50, left associativity) : N_scope.
